@@ -34,6 +34,14 @@ let pr_w w = results := !results @ [int_of_nat w]; Printf.printf "R %d\n" (int_o
 let pr_ws ws = results := !results @ List.map int_of_nat ws;
   Printf.printf "R %s\n" (String.concat " " (List.map (fun w -> string_of_int (int_of_nat w)) ws))
 
+let pr_p (p : nat * nat) = let (x, y) = p in
+  results := !results @ [int_of_nat x; int_of_nat y]; Printf.printf "R %d %d\n" (int_of_nat x) (int_of_nat y)
+let pr_err (k : perr) = Printf.printf "E %s\n" (match k with
+  | PDegenerate -> "JubJubPointDegenerate" | PNotTorsionFree -> "JubJubPointNotTorsionFree"
+  | PGeneratorNotPrimeOrder -> "JubJubGeneratorNotPrimeOrder" | PScalarMalformed -> "JubJubScalarMalformed"
+  | PUnsupportedWnaf -> "UnsupportedWNAF2k")
+let pr_res r = match r with Inl k -> pr_err k | Inr p -> pr_p p
+
 let snap () =
   let s = !st in
   List.iteri (fun i (g : gate) ->
@@ -91,6 +99,29 @@ let step line =
   | ["decomp"; n; a] -> let (ws, s) = component_decomposition (nat n) (nat a) !st in st := s; pr_ws ws
   | ["land"; p; a; b] -> let (w, s) = append_logic_and (nat p) (nat a) (nat b) !st in st := s; pr_w w
   | ["lxor"; p; a; b] -> let (w, s) = append_logic_xor (nat p) (nat a) (nat b) !st in st := s; pr_w w
+  | [("pt" | "ppt" | "cpt") as op; u; v; z; t1; t2] ->
+      let (r, s) = (match op with
+        | "pt" -> append_point_ext (fr u) (fr v) (fr z) !st
+        | "ppt" -> append_public_point_ext (fr u) (fr v) (fr z) !st
+        | _ -> append_constant_point_ext (fr u) (fr v) (fr z) (fr t1) (fr t2) !st) in
+      st := s; pr_res r
+  | ["aeqp"; xa; ya; xb; yb] -> st := assert_equal_point (nat xa, nat ya) (nat xb, nat yb) !st
+  | ["aeqpp"; x; y; u; v; z; _; _] ->
+      let (e, s) = assert_equal_public_point_ext (nat x, nat y) (fr u) (fr v) (fr z) !st in
+      st := s; (match e with Some k -> pr_err k | None -> ())
+  | ["padd"; xa; ya; xb; yb] -> let (p, s) = component_add_point (nat xa, nat ya) (nat xb, nat yb) !st in st := s; pr_p p
+  | ["psub"; xa; ya; xb; yb] -> let (p, s) = component_sub_point (nat xa, nat ya) (nat xb, nat yb) !st in st := s; pr_p p
+  | ["pneg"; x; y] -> let (p, s) = component_neg_point (nat x, nat y) !st in st := s; pr_p p
+  | ["pmul"; k; x; y] -> let (p, s) = component_mul_point (nat k) (nat x, nat y) !st in st := s; pr_p p
+  | ["pselid"; b; x; y] -> let (p, s) = component_select_identity (nat b) (nat x, nat y) !st in st := s; pr_p p
+  | ["pselpt"; b; xa; ya; xb; yb] -> let (p, s) = component_select_point (nat b) (nat xa, nat ya) (nat xb, nat yb) !st in st := s; pr_p p
+  | ["tors"; x; y] -> st := assert_torsion_free_point (nat x, nat y) !st
+  | ["torsq"; x; y; qx; qy] -> st := assert_torsion_free_gates (nat x, nat y) (fr qx, fr qy) !st
+  | ["mulgen"; k; u; v; z; t1; t2] ->
+      let (r, s) = component_mul_generator_ext (nat k) (fr u) (fr v) (fr z) (fr t1) (fr t2) !st in st := s; pr_res r
+  | ["fbd"; k; gx; gy; ds] ->
+      let digits = List.init 256 (fun i -> if i < String.length ds then (match ds.[i] with '+' -> ZA.one | '-' -> ZA.minus_one | 'x' -> ZA.of_int 2 | _ -> ZA.zero) else ZA.zero) in
+      let (r, s) = append_fixed_base_signed_digits (nat k) (fr gx, fr gy) digits !st in st := s; pr_res r
   | "raw" :: rest when List.length rest = 17 ->
       let a = Array.of_list rest in
       let c : constraint0 =
